@@ -251,7 +251,9 @@ func main() {
 	if selftest != "" {
 		os.Exit(selftestMain(cfg, selftest))
 	}
-	os.Exit(checkMain(cfg))
+	rc := checkMain(cfg)
+	os.Remove(smtDir()) // only if empty: the query files of failed obligations stay (the replay files name them)
+	os.Exit(rc)
 }
 
 func checkMain(cfg *Config) int {
